@@ -64,3 +64,24 @@ Theorem C07_wingbox_stress_mirror_refuted :
   exists u0y r0z u1y r1z L, Rabs (wb_mz_loc u1y (- r1z) u0y (- r0z) L) <> Rabs (wb_mz_loc u0y r0z u1y r1z L).
 Proof. exact wingbox_stress_mirror_refuted. Qed.
 Print Assumptions C07_wingbox_stress_mirror_refuted.
+
+(* geometry design variables on right-half symmetric meshes (root at spanwise index 0): the model of the
+   current code — which the correspondence streams show to be the code's behaviour — violates the
+   documented effect (recorded findings F05-Sweep, F05-Dihedral, F05-Taper) *)
+From OAS Require Import Geom GeomProofs.
+Theorem C07_sweep_dihedral_right_half_refuted :
+  forall npy (m : nat -> nat -> nat -> R) b ang i,
+    m 0%nat 0%nat 1%nat = 0 -> m 0%nat npy 1%nat = b -> 0 < b -> 0 < tan (PI / 180 * ang) ->
+    (sweep_mesh npy true ang m i 0%nat 0%nat - m i 0%nat 0%nat = b * tan (PI / 180 * ang) /\
+     sweep_mesh npy true ang m i npy 0%nat = m i npy 0%nat /\ sweep_mesh npy true ang m i 0%nat 0%nat <> m i 0%nat 0%nat) /\
+    (dihedral_mesh npy true ang m i 0%nat 2%nat - m i 0%nat 2%nat = b * tan (PI / 180 * ang) /\
+     dihedral_mesh npy true ang m i npy 2%nat = m i npy 2%nat /\ dihedral_mesh npy true ang m i 0%nat 2%nat <> m i 0%nat 2%nat).
+Proof. intros; split; [eapply sweep_right_half_refuted | eapply dihedral_right_half_refuted]; eassumption. Qed.
+Print Assumptions C07_sweep_dihedral_right_half_refuted.
+
+Theorem C07_taper_right_half_refuted :
+  forall npx npy rap t (m : nat -> nat -> nat -> R) j,
+    0 <= ref_axis npx rap m j 1%nat -> 0 < ref_axis npx rap m npy 1%nat - ref_axis npx rap m 0%nat 1%nat ->
+    taper_factor npx npy true rap t m j = 1.
+Proof. exact taper_right_half_refuted. Qed.
+Print Assumptions C07_taper_right_half_refuted.
